@@ -132,6 +132,7 @@ func (r *RoundRobin) nextServer() (*server, error) {
 	// Maximum weight across all enabled servers
 	maxWeight := r.maxWeight()
 	if maxWeight == 0 {
+		verifEmit("rr.pick", r, "", 0, "allzero")
 		return nil, errors.New("all servers have 0 weight")
 	}
 
